@@ -44,20 +44,26 @@ def check(run, F, tier):
             if q != {"ExactlyOnce"}:
                 continue
             ins = set_calls(p, "insert")
+            con = set_calls(p, "contains")
             w = conn.word(p) or []
             notified = "NotifyPacketReceived" in w
-            if not ins:
+            # first-seen decision: `insert(id)` returned true, or `contains(&id)` returned false (two idioms)
+            dec = sorted(ins + con, key=lambda x: x[0])
+            if not dec:
                 if notified:
                     problems.setdefault("QoS 2 PUBLISH notified on a path that never consulted the handled set", p)
                 continue
-            t = conn.truth(p, ins[0][1])
+            first_call = dec[0][1]
+            is_insert = first_call[1].endswith("::insert")
+            t = conn.truth(p, first_call)
             if t is None:
-                problems.setdefault("path does not branch on the result of qos2_publish_handled.insert", p)
+                problems.setdefault("path does not branch on the result of the handled-set test", p)
                 continue
-            if t is False:
+            first_seen = t if is_insert else (not t)
+            if not first_seen:
                 n_dup += 1
                 if notified:
-                    problems.setdefault("duplicate QoS 2 PUBLISH (insert returned false) is notified again", p)
+                    problems.setdefault("duplicate QoS 2 PUBLISH (already in the handled set) is notified again", p)
                 sts = conn.status_at_entry(F, p)
                 errs = conn.errors(p)
                 if sts == {"Connected"} and not errs:
@@ -67,9 +73,11 @@ def check(run, F, tier):
             else:
                 n_first += 1
                 rem = set_calls(p, "remove")
-                if not notified and not rem:
+                marked = bool(ins)
+                if notified and not marked:
+                    problems.setdefault("first-seen QoS 2 PUBLISH is notified but never recorded in the handled set (a retransmission would be delivered twice)", p)
+                if marked and not notified and not rem:
                     errs = ",".join(conn.errors(p)) or "no error"
-                    sts = ",".join(sorted(conn.status_at_entry(F, p)))
                     swallow.setdefault("%s" % errs, p)
         key = f["name"]
         if n_first == 0 or n_dup == 0:
